@@ -355,10 +355,45 @@ func c09Run(c *ctx, s c09Scenario, how string) {
 		sh := s
 		sh.items = append([][]setOp{}, s.items...)
 		shuffle(c.r, sh.items)
-		g1 := jsonapi.Range(s.build(), s.ids, flt, s.rules, s.size, 0)
-		g2 := jsonapi.Range(sh.build(), s.ids, flt, s.rules, s.size, 0)
-		if !reflect.DeepEqual(idsOf(g1), idsOf(g2)) {
-			fail("result-depends-on-initial-order", fmt.Sprintf("%q vs %q", idsOf(g1), idsOf(g2)))
+		if p, pv := guard(func() {
+			g1 := jsonapi.Range(s.build(), s.ids, flt, s.rules, s.size, 0)
+			g2 := jsonapi.Range(sh.build(), s.ids, flt, s.rules, s.size, 0)
+			if !reflect.DeepEqual(idsOf(g1), idsOf(g2)) {
+				fail("result-depends-on-initial-order", fmt.Sprintf("%q vs %q", idsOf(g1), idsOf(g2)))
+			}
+		}); p {
+			fail("range-panics", fmt.Sprintf("on the collection in another initial order: %v", pv))
+		}
+	}
+	// the rule list is the caller's: Range neither rewrites it nor writes behind its end; and a
+	// page that Range returned can be given to Range again
+	if key == "" {
+		if p, pv := guard(func() {
+			buf := make([]string, len(s.rules), len(s.rules)+3)
+			copy(buf, s.rules)
+			for i := len(buf); i < cap(buf); i++ {
+				buf[:cap(buf)][i] = "sentinel"
+			}
+			p1 := jsonapi.Range(s.build(), s.ids, flt, buf, s.size, 0)
+			if !reflect.DeepEqual(append([]string{}, buf...), append([]string{}, s.rules...)) {
+				fail("rules-changed", fmt.Sprintf("the caller's rule list %q became %q", s.rules, buf))
+			}
+			for i := len(buf); i < cap(buf); i++ {
+				if buf[:cap(buf)][i] != "sentinel" {
+					fail("rules-changed", fmt.Sprintf("Range wrote %q behind the end of the caller's rule list", buf[:cap(buf)][i]))
+				}
+			}
+			if p1 != nil && withIDs {
+				// already selected, filtered and sorted: sorting it again by the same rules changes nothing
+				again := jsonapi.Range(p1, nil, nil, s.rules, 1000, 0)
+				if s.size >= 1000 || uint(p1.Len()) <= 1000 {
+					if !reflect.DeepEqual(idsOf(again), idsOf(p1)) {
+						fail("range-of-range-differs", fmt.Sprintf("%q, ranged again %q", idsOf(p1), idsOf(again)))
+					}
+				}
+			}
+		}); p {
+			fail("range-panics", fmt.Sprintf("with a rule list that has spare capacity, or on a page Range returned: %v", pv))
 		}
 	}
 	// the returned collection is the caller's: what is done to one result never shows in a later one
